@@ -1042,6 +1042,42 @@ class ProjectorFromShortcut(Contract):
         return judge(nat)
 
 
+
+class PopulationGetattr(Contract):
+    name = f"{POP}.__getattr__"
+    prop = ("C10", "C13")
+    top_level = True
+    cases = ("a-projection", "not-an-attribute")
+    descr = ("an unknown attribute of a population is resolved as a projection shortcut each time it is used: the projector the "
+             "shortcut helper returns for this population is handed on, nothing is kept on the population (so nothing of it can be "
+             "carried into a clone); what is no shortcut is an AttributeError")
+
+    def setup(self, I, ctx, case):
+        R = I.resolve_qualified
+        pent = Obj(R("openfisca_core.entities.entity.Entity"), {"key": "person", "is_person": True}, label="person-entity")
+        persons = Obj(R(POP), {"entity": pent, "count": Sym(ctx.fresh_int("count"))}, label="persons")
+        proj = Obj(R(f"{PROJ}.entity_to_person_projector.EntityToPersonProjector"), {"reference_entity": None, "parent": None}, label="projector")
+        ctx.ghost["helper_result"] = proj if case == "a-projection" else None
+        return {"self": persons, "attribute": "household", "__fields0": dict(persons.fields), "__proj": proj, "__case": case}
+
+    @staticmethod
+    def local_contracts():
+        nm = f"{PROJ}.helpers.get_projector_from_shortcut"
+        return {nm: rec(nm, "shortcut", [("return", lambda I, ctx, a: ctx.ghost["helper_result"])])}
+
+    def post(self, I, ctx, a, out, old):
+        calls = log_of(ctx, "shortcut")
+        me = a["self"]
+        res = [("asks-the-shortcut-helper-once-for-this-population-and-name",
+                len(calls) == 1 and calls[0]["args"].get("population") is me and calls[0]["args"].get("shortcut") == "household" and calls[0]["args"].get("parent") in (None,)),
+               ("nothing-is-kept-on-the-population", set(me.fields) == set(a["__fields0"]) and all(me.fields[k] is a["__fields0"][k] for k in a["__fields0"]))]
+        if a["__case"] == "a-projection":
+            res.append(("hands-on-the-projector-the-helper-returned", out[0] == "return" and out[1] is a["__proj"]))
+        else:
+            res.append(("what-is-no-shortcut-is-an-attribute-error", out[0] == "raise" and out[1].cls.name == "AttributeError"))
+        return res
+
+
 def lemmas(prop, timeout_ms):
     if prop != "C10":
         return []
@@ -1120,4 +1156,4 @@ def lemmas(prop, timeout_ms):
     return recs
 
 
-CONTRACTS = [GetRank(), ProjectorFromShortcut(), GroupSum(), GroupNbPersons(), GroupAny(), GroupProject(), MembersPosition(), ValueFromPerson(), ValueNthPerson(), GroupReduce(), GroupWrappers(), GroupWrappersMin(), GroupWrappersAll(), ValueFromFirstPerson(), ProjectorTransform(), ProjectorTransforms(), ProjectorTransformsFirst(), ProjectorTransformsRole()]
+CONTRACTS = [GetRank(), ProjectorFromShortcut(), PopulationGetattr(), GroupSum(), GroupNbPersons(), GroupAny(), GroupProject(), MembersPosition(), ValueFromPerson(), ValueNthPerson(), GroupReduce(), GroupWrappers(), GroupWrappersMin(), GroupWrappersAll(), ValueFromFirstPerson(), ProjectorTransform(), ProjectorTransforms(), ProjectorTransformsFirst(), ProjectorTransformsRole()]
